@@ -486,9 +486,39 @@ def extract(repo, outdir):
     return report
 
 
+def table_diff(repo, pipeline_lean):
+    """Maintenance helper: which extracted sites are missing from / stale in
+    `guardTable` of Sbepp/Gen/Pipeline.lean (the Lean obligation
+    `unchecked_sites_covered` demands equality, in order)."""
+    sites, _ = scan(repo)
+    txt = open(pipeline_lean, encoding='utf-8').read()
+    a = txt.index('def guardTable')
+    b = txt.index('\n]', a)
+    lit = r'"((?:[^"\\]|\\.)*)"'
+    keys = re.findall(r'\(\(%s,\s*%s,\s*%s,\s*%s\),' % (lit, lit, lit, lit), txt[a:b])
+    unesc = lambda t: re.sub(r'\\(.)', r'\1', t)  # noqa: E731
+    table = [tuple(unesc(x) for x in k) for k in keys]
+    ext = [(f, fn, k, t) for f, fn, k, _, t in sites]
+    missing = [s for s in sites if (s[0], s[1], s[2], s[4]) not in set(table)]
+    stale = [k for k in table if k not in set(ext)]
+    return {'extracted': len(ext), 'table': len(table), 'same_order': ext == table, 'missing_in_table': missing,
+            'stale_in_table': stale}
+
+
 if __name__ == '__main__':
     import json
     import sys
+    if len(sys.argv) > 1 and sys.argv[1] == '--diff':
+        d = table_diff(sys.argv[2] if len(sys.argv) > 2 else '/repo',
+                       sys.argv[3] if len(sys.argv) > 3 else os.path.join(os.path.dirname(os.path.dirname(
+                           os.path.abspath(__file__))), 'lean', 'Sbepp', 'Gen', 'Pipeline.lean'))
+        print('extracted %d, table %d, same order: %s' % (d['extracted'], d['table'], d['same_order']))
+        for s_ in d['missing_in_table']:
+            print('MISSING  (%s, %s, %s, %s)  -- line %d' % (lean_str(s_[0]), lean_str(s_[1]), lean_str(s_[2]),
+                                                            lean_str(s_[4]), s_[3]))
+        for k in d['stale_in_table']:
+            print('STALE    (%s)' % ', '.join(lean_str(x) for x in k))
+        sys.exit(0 if d['same_order'] else 1)
     r = extract(sys.argv[1] if len(sys.argv) > 1 else '/repo', sys.argv[2] if len(sys.argv) > 2 else '.')
     json.dump({k: v for k, v in r.items() if k != 'list'}, sys.stdout, indent=1)
     for s in r['list']:
